@@ -100,7 +100,8 @@ func (eng *Engine) initStubsHash() {
 	s["crypto/sha256.Sum256"] = sum("sha256", 32)
 
 	// RSA verification: arbitrary outcome, remembered for the harness
-	s["crypto/rsa.VerifyPKCS1v15"] = func(e *Exec, _ *frame, _ *ssa.Function, _ []Value) Value {
+	s["crypto/rsa.VerifyPKCS1v15"] = func(e *Exec, _ *frame, _ *ssa.Function, args []Value) Value {
+		e.oracleArg["rsa.verify.key"] = args[0]
 		if e.Choice(2) == 0 {
 			e.oracle["rsa.verify"] = 0
 			return Iface{}
@@ -108,18 +109,43 @@ func (eng *Engine) initStubsHash() {
 		e.oracle["rsa.verify"] = 1
 		return e.sentinelErr("crypto/rsa: verification error")
 	}
-	s["crypto/x509.ParsePKIXPublicKey"] = func(e *Exec, _ *frame, fn *ssa.Function, _ []Value) Value {
+	s["crypto/x509.ParsePKIXPublicKey"] = func(e *Exec, _ *frame, fn *ssa.Function, args []Value) Value {
 		rsaPkg := e.eng.prog.ImportedPackage("crypto/rsa")
 		if rsaPkg == nil {
 			e.unsupported("crypto/rsa not loaded")
 		}
 		t := rsaPkg.Type("PublicKey").Type()
+		// the embedded key (go:embed data is not modelled: empty input) parses;
+		// any other input may or may not
+		if len(args[0].(Slice).c) > 0 && e.Choice(2) == 1 {
+			return Tuple{Iface{}, e.sentinelErr("x509: failed to parse public key")}
+		}
 		c := new(Value)
 		*c = e.zero(t)
+		// N: a non-nil zero *big.Int so that methods such as Size() run
+		st := (*c).(Struct)
+		if nt, ok := under(t).(*types.Struct); ok && nt.NumFields() > 0 {
+			if pt, ok := under(nt.Field(0).Type()).(*types.Pointer); ok {
+				nc := new(Value)
+				*nc = e.zero(pt.Elem())
+				st[0] = Ptr{cell: nc}
+			}
+		}
 		return Tuple{Iface{t: types.NewPointer(t), v: Ptr{cell: c}}, Iface{}}
 	}
 	s["crypto/x509.MarshalPKIXPublicKey"] = func(e *Exec, _ *frame, fn *ssa.Function, _ []Value) Value {
 		return Tuple{e.newByteSlice([]Value{e.tc.BV(0x30, 8), e.tc.BV(0x00, 8)}), Iface{}}
+	}
+	s[vpPath+".StubArgIs"] = func(e *Exec, _ *frame, _ *ssa.Function, args []Value) Value {
+		name, _ := args[0].(*StrV).conc()
+		seen, ok := e.oracleArg[name]
+		if !ok {
+			return e.tc.False
+		}
+		itf := args[1].(Iface)
+		sp, ok1 := seen.(Ptr)
+		hp, ok2 := itf.v.(Ptr)
+		return e.tc.Bool(ok1 && ok2 && sp.cell == hp.cell && sp.cell != nil)
 	}
 	s[vpPath+".StubResult"] = func(e *Exec, _ *frame, _ *ssa.Function, args []Value) Value {
 		name, _ := args[0].(*StrV).conc()
